@@ -45,40 +45,41 @@
 -/
 namespace ApiFu.C09.Relay
 
-abbrev Cursor := Int
+section
+variable {α : Type} [DecidableEq α] (lt : α → α → Bool)
 
 /-- Position of the edge whose cursor equals `c`, if such an edge exists. -/
-def indexOfCursor (c : Cursor) : List Cursor → Option Nat
+def indexOfCursor (c : α) : List α → Option Nat
   | [] => none
   | d :: ds => if d = c then some 0 else (indexOfCursor c ds).map (· + 1)
 
 /-- "Remove all elements of edges before and including afterEdge"; a foreign cursor is a position. -/
-def removeThrough (edges : List Cursor) (after : Cursor) : List Cursor :=
+def removeThrough (edges : List α) (after : α) : List α :=
   match indexOfCursor after edges with
   | some i => edges.drop (i + 1)
-  | none => edges.filter (fun c => decide (after < c))
+  | none => edges.filter (fun c => lt after c)
 
 /-- "Remove all elements of edges after and including beforeEdge"; a foreign cursor is a position. -/
-def removeFrom (edges : List Cursor) (before : Cursor) : List Cursor :=
+def removeFrom (edges : List α) (before : α) : List α :=
   match indexOfCursor before edges with
   | some i => edges.take i
-  | none => edges.filter (fun c => decide (c < before))
+  | none => edges.filter (fun c => lt c before)
 
-def applyCursorsToEdges (allEdges : List Cursor) (before after : Option Cursor) : List Cursor :=
+def applyCursorsToEdges (allEdges : List α) (before after : Option α) : List α :=
   let edges := allEdges
   let edges := match after with
-    | some a => removeThrough edges a
+    | some a => removeThrough lt edges a
     | none => edges
   let edges := match before with
-    | some b => removeFrom edges b
+    | some b => removeFrom lt edges b
     | none => edges
   edges
 
 /-- `none` = "Throw an error". -/
-def edgesToReturn (allEdges : List Cursor) (before after : Option Cursor) (first last : Option Int) :
-    Option (List Cursor) :=
-  let edges := applyCursorsToEdges allEdges before after
-  let afterFirst : Option (List Cursor) :=
+def edgesToReturn (allEdges : List α) (before after : Option α) (first last : Option Int) :
+    Option (List α) :=
+  let edges := applyCursorsToEdges lt allEdges before after
+  let afterFirst : Option (List α) :=
     match first with
     | some f =>
       if f < 0 then none
@@ -93,6 +94,8 @@ def edgesToReturn (allEdges : List Cursor) (before after : Option Cursor) (first
       else if edges.length > l.toNat then some (edges.drop (edges.length - l.toNat)) else some edges
     | none => some edges
 
+end
+
 /-- What the specification demands of a page-info flag. -/
 inductive Req where
   | mustBe (b : Bool)
@@ -104,24 +107,31 @@ def Req.admits : Req → Bool → Bool
   | .mustBe b, x => x == b
   | .mayBeTrueIf p, x => !x || p
 
-def hasPreviousPage (allEdges : List Cursor) (before after : Option Cursor) (_first last : Option Int) : Req :=
+section
+variable {α : Type} [DecidableEq α] (lt : α → α → Bool)
+
+/-- "Elements exist prior to `after`" is read as: an edge exists at or before the position `after`
+    (the edge the cursor belongs to is itself outside the page, on that side). -/
+def hasPreviousPage (allEdges : List α) (before after : Option α) (_first last : Option Int) : Req :=
   match last with
   | some l =>
-    let edges := applyCursorsToEdges allEdges before after
+    let edges := applyCursorsToEdges lt allEdges before after
     .mustBe (decide ((edges.length : Int) > l))
   | none =>
     match after with
-    | some a => .mayBeTrueIf (allEdges.any (fun c => decide (c ≤ a)))   -- elements exist prior to `after`
+    | some a => .mayBeTrueIf (allEdges.any (fun c => !(lt a c)))
     | none => .mustBe false
 
-def hasNextPage (allEdges : List Cursor) (before after : Option Cursor) (first _last : Option Int) : Req :=
+def hasNextPage (allEdges : List α) (before after : Option α) (first _last : Option Int) : Req :=
   match first with
   | some f =>
-    let edges := applyCursorsToEdges allEdges before after
+    let edges := applyCursorsToEdges lt allEdges before after
     .mustBe (decide ((edges.length : Int) > f))
   | none =>
     match before with
-    | some b => .mayBeTrueIf (allEdges.any (fun c => decide (b ≤ c)))   -- elements exist following `before`
+    | some b => .mayBeTrueIf (allEdges.any (fun c => !(lt c b)))
     | none => .mustBe false
+
+end
 
 end ApiFu.C09.Relay
